@@ -3,6 +3,7 @@ package engine
 import (
 	"fmt"
 	"net/http"
+	"net/url"
 	"sort"
 	"strconv"
 	"strings"
@@ -86,8 +87,31 @@ func respCheck(prop string, o *Outcome) []Violation {
 	{
 		var out []Violation
 		added := allowedAddedHeaders(o.Plan)
+		plainURL := true // no configuration of the plan rewrites paths or adds query parameters
+		for _, c := range o.Plan.Configs {
+			for _, l := range c.Locations {
+				if len(l.Rewrites) > 0 || len(l.QueryStrings) > 0 {
+					plainURL = false
+				}
+			}
+		}
 		for _, v := range o.Views() {
 			r := v.R
+			if plainURL {
+				// whatever the request became inside pike, the origin is asked for the URL (and the
+				// Host and method) the client asked for
+				for _, u := range v.OwnUps {
+					cu, err := url.ParseRequestURI(r.URI)
+					if err != nil || u.Call == nil {
+						continue
+					}
+					o.Hist.Probes["origin-url-compared"]++
+					if u.Call.Path != cu.EscapedPath() || u.Call.RawQuery != cu.RawQuery || u.Call.Method != r.Method {
+						out = append(out, violation(prop, "origin-asked-for-other-url", "the origin was asked for another URL than the client's",
+							"client op %d %s %s: upstream request #%d was %s %s?%s", r.Op, r.Method, r.URI, u.Serial, u.Call.Method, u.Call.Path, u.Call.RawQuery))
+					}
+				}
+			}
 			switch v.Kind {
 			case "unattributed":
 				out = append(out, violation(prop, "unattributable-response", "response carries no origin reply identity",
